@@ -6,12 +6,14 @@ package verifutil
 // channel) and a repo-frame extractor that also understands VERIF_REPO_DIR.
 
 import (
+	"fmt"
 	"os"
 	"regexp"
 	"runtime"
 	"runtime/metrics"
 	"strings"
 	"sync"
+	"syscall"
 	"time"
 )
 
@@ -165,15 +167,63 @@ type CallResult struct {
 	Stack    string
 	Alloc    uint64 // bytes allocated by the process during the call (TotalAlloc delta)
 	TimedOut bool   // first watchdog (soft) expired
-	Hung     bool   // the call did not return within soft+hard
-	Dump     string // goroutine dump taken when the call was declared hung
+	Hung     bool   // the call is blocked for good or spins (see Guard)
+	Starved  bool   // the call did not return, but neither blocked nor got CPU: no verdict
+	Dump     string // goroutine dump taken when the call was given up
+	Why      string // how the hang was decided
 }
 
-// Guard runs f in its own goroutine with panic capture, an allocation meter and a two-stage
-// watchdog: soft expiry only marks the call as slow and keeps waiting (nothing else runs in
-// this process meanwhile, so the continued wait IS the solitary re-run); if the call has
-// not returned after soft+hard it is declared hung and its goroutine is abandoned.
-// meter=false skips the two ReadMemStats calls.
+func cpuSeconds() float64 {
+	var ru syscall.Rusage
+	if syscall.Getrusage(syscall.RUSAGE_SELF, &ru) != nil {
+		return 0
+	}
+	return float64(ru.Utime.Sec+ru.Stime.Sec) + float64(ru.Utime.Usec+ru.Stime.Usec)/1e6
+}
+
+func ownGoroutineHeader() string {
+	var b [64]byte
+	n := runtime.Stack(b[:], false)
+	h := string(b[:n])
+	if i := strings.Index(h, " ["); i > 0 {
+		return h[:i+1] // "goroutine 123 "
+	}
+	return ""
+}
+
+// goroutineOf returns state and dump of the goroutine whose header starts with hdr.
+func goroutineOf(dump, hdr string) (state, g string) {
+	for _, x := range strings.Split(dump, "\n\n") {
+		if strings.HasPrefix(x, hdr) {
+			if m := goroutineHdr.FindStringSubmatch(x); m != nil {
+				return m[1], x
+			}
+		}
+	}
+	return "", ""
+}
+
+func frames(g string) string {
+	var out []string
+	for _, l := range strings.Split(g, "\n") {
+		if !strings.HasPrefix(l, "\t") && !strings.HasPrefix(l, "goroutine ") {
+			if k := strings.LastIndex(l, "("); k > 0 {
+				l = l[:k]
+			}
+			out = append(out, l)
+		}
+	}
+	return strings.Join(out, "|")
+}
+
+// Guard runs f in its own goroutine with panic capture, an allocation meter and a watchdog.
+// Soft expiry only marks the call as slow and keeps waiting (nothing else is started in this
+// process meanwhile, so the continued wait IS the solitary re-run). After soft+hard the
+// call's goroutine is examined: parked (channel, select, lock, sleep ...) with an unchanged
+// stack over a further interval => Hung; runnable/running while the process burnt CPU for
+// most of the hard window => Hung (it spins); runnable but the process got no CPU (an
+// overloaded machine) => Starved: no verdict, the caller reports inconclusive. In the last
+// two cases the goroutine is abandoned.
 func Guard(soft, hard time.Duration, meter bool, f func()) CallResult {
 	var res CallResult
 	var a0 uint64
@@ -181,8 +231,12 @@ func Guard(soft, hard time.Duration, meter bool, f func()) CallResult {
 		a0 = TotalAlloc()
 	}
 	done := make(chan struct{})
+	var hdr string
+	started := make(chan struct{})
 	go func() {
 		defer close(done)
+		hdr = ownGoroutineHeader()
+		close(started)
 		res.Panic, res.Stack = Catch(f)
 	}()
 	t := time.NewTimer(soft)
@@ -191,13 +245,54 @@ func Guard(soft, hard time.Duration, meter bool, f func()) CallResult {
 		t.Stop()
 	case <-t.C:
 		res.TimedOut = true
-		t2 := time.NewTimer(hard)
-		select {
-		case <-done:
-			t2.Stop()
-		case <-t2.C:
-			// the goroutine may still write res.Panic later: hand back a copy
-			return CallResult{TimedOut: true, Hung: true, Dump: AllStacks()}
+		for window := 0; ; window++ {
+			cpu0 := cpuSeconds()
+			t2 := time.NewTimer(hard)
+			select {
+			case <-done:
+				t2.Stop()
+				if meter {
+					res.Alloc = TotalAlloc() - a0
+				}
+				return res
+			case <-t2.C:
+			}
+			burnt := cpuSeconds() - cpu0
+			<-started
+			d1 := AllStacks()
+			st1, g1 := goroutineOf(d1, hdr)
+			out := CallResult{TimedOut: true, Dump: d1}
+			if st1 == "runnable" || st1 == "running" || st1 == "" {
+				if burnt > 0.5*hard.Seconds() {
+					out.Hung, out.Why = true, fmt.Sprintf("still executing after %v+%v; the process used %.0f s of CPU in the last %v (it spins)", soft, hard, burnt, hard)
+					return out
+				}
+				if window < 2 {
+					continue // starved so far: give it more wall time
+				}
+				out.Starved, out.Why = true, fmt.Sprintf("not returned after %v+3x%v, but the process got only %.0f s of CPU in the last window (overloaded machine)", soft, hard, burnt)
+				return out
+			}
+			// parked: is it still parked at the same place a little later?
+			select {
+			case <-done:
+				if meter {
+					res.Alloc = TotalAlloc() - a0
+				}
+				return res
+			case <-time.After(10 * time.Second):
+			}
+			d2 := AllStacks()
+			st2, g2 := goroutineOf(d2, hdr)
+			if st2 == st1 && frames(g1) == frames(g2) {
+				out.Hung, out.Dump = true, d2
+				out.Why = fmt.Sprintf("parked in state [%s] with an unchanged stack %v after the call began", st1, soft+hard)
+				return out
+			}
+			if window >= 2 {
+				out.Starved, out.Why = true, "not returned, goroutine state keeps changing"
+				return out
+			}
 		}
 	}
 	if meter {
